@@ -42,6 +42,32 @@ def gen_env(r):
     return None                                                 # MainProcess
 
 
+# the configuration the manager is built from (see pm_driver: "cfg").  The statements do not depend on it.
+EXTRA_ARGS = dict(shutdown_timeout=[0.5, 5, 30], max_async_tasks=[1, 10, 100], max_prefetch=[0, 1, 8], hardkill_count=[1, 3],
+                  max_tasks_per_child=[1, 50], wait_tasks_timeout=[0.5, 10], max_threadpool_threads=[1, 4],
+                  log_level=["DEBUG", "WARNING", "ERROR"], use_process_pool=[True], no_parse=[True], fs_discover=[True],
+                  no_propagate_errors=[True], configure_logging=[False])
+
+
+def gen_cfg(r):
+    """absent (55 %) = the configuration of every earlier case: reload off, no observer, WorkerArgs built directly"""
+    if r.random() < .55:
+        return None
+    reload = r.random() < .65
+    extras = r.random() < .6                # the optional `reload` extra (watchdog, gitignore-parser) is importable
+    if reload and extras:
+        observer = "rec" if r.random() < .8 else "none"     # what the CLI passes / ProcessManager(args, func) by hand
+    elif extras and r.random() < .15:
+        observer = "rec"                    # an observer although reload is off: nothing must be scheduled on it
+    else:
+        observer = "none"                   # --reload without the extra: the CLI warns and passes None
+    cfg = dict(reload=reload, extras=extras, observer=observer, no_gitignore=r.random() < .3, gitignore=r.random() < .5,
+               via="cli" if r.random() < .25 else "direct")
+    if r.random() < .4:
+        cfg["args"] = {k: r.choice(EXTRA_ARGS[k]) for k in r.sample(sorted(EXTRA_ARGS), r.randint(1, 3))}
+    return cfg
+
+
 def mark(ev, at, j):
     return ev + [dict(at=at, j=j)]
 
@@ -64,14 +90,25 @@ def gen_prepare_window(r, n, pint):
     out = []
     points = [("start", j) for j in range(n)] + [(a, j) for j in range(n) for a in ("poll", "wait")]
     style = r.random()
-    if style < .2:                                      # every worker crashes at startup
+    if style > .85:
+        # the operator (or the supervisor, or the file watcher) acts while the workers are still starting: one or two
+        # requests at arbitrary points of prepare_workers, maybe next to a worker that exits at once
+        for _ in range(r.choice([1, 1, 2])):
+            at, j = r.choice(points)
+            k = r.random()
+            out.append(mark([r.choice(["int", "term"]) if k < .6 and pint else "hup" if k < .8 else "file"], at, j))
+        if r.random() < .35:
+            i = r.randrange(n)
+            at, j = r.choice([("start", i), ("poll", i), ("wait", i)])
+            out.append(prep_death(n, i, at, j))
+    elif style < .2:                                    # every worker crashes at startup
         for i in range(n):
             at, j = r.choice([("start", i), ("poll", i), ("poll", i), ("wait", i), r.choice(points[i:])])
             out.append(prep_death(n, i, at, j))
     else:
         for at, j in points:
             started = (j + 1) if at == "start" else n
-            while r.random() < (.25 if style < .8 else .5):
+            while r.random() < (.25 if style < .7 else .5):
                 k = r.random()
                 if k < .7:
                     i = j if r.random() < .7 else r.randrange(started)
@@ -177,6 +214,9 @@ def gen_case(r, max_ticks=40, mfs=MFS_QUICK, max_n=4):
     env = gen_env(r)
     if env:
         c["env"] = env
+    cfg = gen_cfg(r)
+    if cfg:
+        c["cfg"] = cfg
     return c
 
 
@@ -240,11 +280,17 @@ def exhaustive_mid(n, mf, depth):
                     yield dict(n=n, mf=mf, p0=100, ticks=h2)
 
 
+PREP_CFGS = [None,
+             dict(reload=True, extras=True, observer="rec", no_gitignore=False, gitignore=True, via="direct"),
+             dict(reload=True, extras=False, observer="none", no_gitignore=False, gitignore=False, via="cli")]
+
+
 def exhaustive_prep(n, mf, depth):
     """every way the workers can exit inside prepare_workers (each worker: not at all / inside its own Process.start()
     / right before the poll of its startup wait / inside the Event.wait of that wait) x {no signal, SIGHUP inside the
     first start(), SIGINT inside the last Event.wait that is reached} x every (reduced-alphabet) history of at most
     `depth` ticks"""
+    k = 0
     for fates in itertools.product([None, "start", "poll", "wait"], repeat=n):
         for sig in (None, "hup", "int"):
             pre = [prep_death(n, i, at, i) for i, at in enumerate(fates) if at]
@@ -254,11 +300,17 @@ def exhaustive_prep(n, mf, depth):
                 pre.append(mark(["int"], "wait", n - 1))
             if not pre:
                 continue
+            k += 1          # decorrelate the configuration from the position in the history enumeration
             pre.sort(key=lambda e: prep_rank(n, e[-1]["at"], e[-1]["j"]))
             for h in sleep_histories(n, depth, True):
                 h2 = [dict(x) for x in h]
                 h2[0]["sleep"] = pre + h2[0]["sleep"]
-                yield dict(n=n, mf=mf, p0=100, ticks=h2)
+                c = dict(n=n, mf=mf, p0=100, ticks=h2)
+                cfg = PREP_CFGS[k % len(PREP_CFGS)]
+                k += 1
+                if cfg:
+                    c["cfg"] = cfg
+                yield c
 
 
 # --------------------------------------------------------------------------- Coq literals
@@ -472,6 +524,19 @@ def oracle_c18(c, o):
                 break
     elif o["kills"]:
         bad.append(("os.kill outside the shutdown action", dict(kills=o["kills"])))
+    # "on SIGINT/SIGTERM it signals every live worker ... returns the success status": a signal that reached the
+    # manager's handler in tick t (0 = while prepare_workers was still starting the workers) is acted upon.  The
+    # statement names no deadline; the reading that demands least of a manager that looks at its requests once per
+    # tick: it has not happened if the manager completed two further whole ticks and is still running.  (A manager that
+    # left through the failure exit first, or that blocked, is not "running" and is judged above.)
+    K = len(o["ticks"]) - 1
+    if res == ["running"]:
+        for sg in o.get("signals") or []:
+            if K >= sg["tick"] + 2:
+                bad.append(("SIGINT/SIGTERM reached the manager's handler but two whole ticks later the manager is still "
+                            "running: no worker was signalled, start() did not return",
+                            dict(signal=sg, ticks_completed=K, config=o.get("args"))))
+                break
     return bad
 
 
@@ -503,6 +568,34 @@ def count_case(rep, c, o):
     if env and any(e[0] in ("hup", "int", "term") for t in c["ticks"] for evs in [t["sleep"]] + t["drain"] + t["alive"]
                    for e in evs):
         rep.count("manager_process:non-main-and-signalled")
+    cfg = c.get("cfg")
+    if not cfg:
+        rep.count("config:default(reload-off,no-observer,direct)")
+    else:
+        rep.count("config:reload-%s" % ("on" if cfg.get("reload") else "off"))
+        rep.count("config:observer-%s" % cfg.get("observer"))
+        rep.count("config:reload-extra-%s" % ("importable" if cfg.get("extras") else "missing"))
+        rep.count("config:args-via-%s" % cfg.get("via", "direct"))
+        if cfg.get("no_gitignore"):
+            rep.count("config:no_gitignore")
+        if cfg.get("gitignore"):
+            rep.count("config:.gitignore-in-cwd")
+        for k in cfg.get("args") or {}:
+            rep.count("config:extra-arg-" + k)
+        if o.get("watches"):
+            rep.count("config:file-watcher-scheduled-on-observer")
+        sigs = o.get("signals") or []
+        if cfg.get("reload") and sigs:
+            rep.count("config:reload-on-and-SIGINT/SIGTERM")
+            if any(sg["tick"] == 0 for sg in sigs):
+                rep.count("config:reload-on-and-SIGINT/SIGTERM-inside-prepare_workers")
+    fv = o.get("file_via") or {}
+    if fv.get("watcher"):
+        rep.count("file_change:through-FileWatcher.dispatch")
+    if fv.get("direct"):
+        rep.count("file_change:direct-callback")
+    if any(sg["tick"] == 0 for sg in o.get("signals") or []):
+        rep.count("startup_window:SIGINT/SIGTERM-delivered-inside-prepare_workers")
     burst = max([reload_requests(t) for t in c["ticks"]] or [0])
     if burst >= 2:
         rep.count("reload_requests_in_one_tick:%s" % (burst if burst < 4 else "4+"))
@@ -633,7 +726,8 @@ def run(ctx, pid, meta):
 THOROUGH = {
     "C17": [("sleep", 1, 4), ("sleep", 2, 4), ("sleep", 3, 3), ("mid", 1, 2), ("mid", 2, 2), ("mid", 3, 1),
             ("prep", 1, 3), ("prep", 2, 2), ("prep", 3, 1)],
-    "C18": [("mid", 1, 3), ("mid", 2, 3), ("mid", 3, 2), ("sleep", 1, 3), ("sleep", 2, 3), ("sleep", 3, 2)],
+    "C18": [("mid", 1, 3), ("mid", 2, 3), ("mid", 3, 2), ("sleep", 1, 3), ("sleep", 2, 3), ("sleep", 3, 2),
+            ("prep", 1, 2), ("prep", 2, 1)],
 }
 
 
@@ -641,7 +735,7 @@ def replay(ctx, pid, path):
     rec = json.load(open(path))
     c = rec.get("case", rec)
     o = C.run_driver(ctx, "pm_driver", [c], nproc=1)[0]
-    print("case:", json.dumps({k: c[k] for k in ("n", "mf", "p0", "slow", "env", "ticks") if k in c}))
+    print("case:", json.dumps({k: c[k] for k in ("n", "mf", "p0", "slow", "env", "cfg", "ticks") if k in c}))
     if "_crash" in o:
         print("driver crashed:", o["_crash"])
         return 1
@@ -649,6 +743,7 @@ def replay(ctx, pid, path):
     for t, effs in enumerate(o["ticks"]):
         print("  tick %d: %s" % (t, effs))
     print("  final workers:", o["final"], "queue:", o["queue"])
+    print("  SIGINT/SIGTERM deliveries:", o.get("signals"), " file changes:", o.get("file_via"), " watches:", o.get("watches"))
     text = COQ_HEADER + "\nEval vm_compute in (run (mkCfg %d %s) %d %s).\n" % (
         c["n"], C.cz(c["mf"]), c["p0"], C.clist([c_tick(t) for t in c["ticks"]]))
     rc, out = C.coq_eval_raw(ctx, "replay", text)
